@@ -45,6 +45,7 @@ type caseT struct {
 	Init    []rowT `json:"init"`
 	Trigger bool   `json:"trigger"`
 	SelfRef bool   `json:"selfref"` // t.c is a self-referential foreign key to t.pk (no UNIQUE / CHECK)
+	FT      bool   `json:"ft"`      // t.b is VARCHAR(32) with a FULLTEXT index (hidden full-text tables); no UNIQUE
 	Stmt    stmtT  `json:"stmt"`
 	K       int    `json:"k"` // fault position (0 = none)
 }
@@ -126,7 +127,11 @@ type world struct {
 func build(cs caseT) *world {
 	w := &world{e: eng.New("db")}
 	w.s = w.e.Session()
-	if cs.SelfRef {
+	if cs.FT {
+		w.s.MustExec(
+			"CREATE TABLE t (pk BIGINT PRIMARY KEY, a BIGINT NOT NULL, b VARCHAR(32), c BIGINT, FULLTEXT KEY fb (b), KEY ia (a), CONSTRAINT ck CHECK (c < 100))",
+			"CREATE TABLE audit (v BIGINT)")
+	} else if cs.SelfRef {
 		w.s.MustExec(
 			"CREATE TABLE t (pk BIGINT PRIMARY KEY, a BIGINT NOT NULL, b VARCHAR(8), c BIGINT, KEY ia (a), KEY ic (c), CONSTRAINT fk FOREIGN KEY (c) REFERENCES t(pk))",
 			"CREATE TABLE audit (v BIGINT)")
@@ -155,7 +160,7 @@ type snapshot struct {
 	audit []string
 }
 
-func (w *world) snap() snapshot {
+func (w *world) snap(ft bool) snapshot {
 	var sn snapshot
 	r := w.s.Query("SELECT * FROM t")
 	for _, x := range r.Rows {
@@ -185,6 +190,20 @@ func (w *world) snap() snapshot {
 		"SELECT * FROM t WHERE b = 'b'", "SELECT * FROM t WHERE c < 50", "SELECT * FROM t WHERE pk >= 3", "SELECT pk FROM t WHERE c = 5 AND a = 1"} {
 		rq := w.s.Query(q)
 		sn.reads = append(sn.reads, fmt.Sprintf("%s => %v %s", q, eng.Bag(rq.Rows), eng.ErrKind(rq.Err)))
+	}
+	if ft {
+		for _, word := range ftWords {
+			rq := w.s.Query(fmt.Sprintf("SELECT pk FROM t WHERE MATCH(b) AGAINST ('%s')", word))
+			sn.reads = append(sn.reads, fmt.Sprintf("MATCH %s => %v %s", word, eng.Bag(rq.Rows), eng.ErrKind(rq.Err)))
+		}
+		rt := w.s.Query("SHOW TABLES")
+		for _, tr := range rt.Rows {
+			name := fmt.Sprint(tr[0])
+			if strings.Contains(strings.ToUpper(name), "_FTS_") {
+				rq := w.s.Query("SELECT * FROM `" + name + "`")
+				sn.reads = append(sn.reads, fmt.Sprintf("hidden %s => %v %s", name, eng.Bag(rq.Rows), eng.ErrKind(rq.Err)))
+			}
+		}
 	}
 	ra := w.s.Query("SELECT * FROM audit")
 	sn.audit = eng.Bag(ra.Rows)
@@ -353,7 +372,7 @@ func applyEdits(before []rowT, es []edit) []rowT {
 
 // violates reports whether the edits, applied in order, break a constraint of t (so the statement must fail),
 // and how many calls succeed before the failing one.
-func violates(before []rowT, es []edit, selfRef bool) (bool, int) {
+func violates(before []rowT, es []edit, selfRef, ft bool) (bool, int) {
 	cur := append([]rowT(nil), before...)
 	for i, e := range es {
 		if e.kind == "del" {
@@ -370,7 +389,7 @@ func violates(before []rowT, es []edit, selfRef bool) (bool, int) {
 		}
 		parent := n.C == nil || *n.C == n.PK
 		for _, x := range rest {
-			if x.PK == n.PK || (!selfRef && x.B != nil && n.B != nil && *x.B == *n.B) {
+			if x.PK == n.PK || (!selfRef && !ft && x.B != nil && n.B != nil && *x.B == *n.B) {
 				return true, i
 			}
 			if n.C != nil && x.PK == *n.C {
@@ -404,6 +423,9 @@ func coqEdit(e edit) string {
 // ---------- generator ----------
 
 var bs = []string{"a", "b", "c", "d", "e", "f", "g", "h"}
+
+var ftWords = []string{"red", "blue", "grey", "fox", "cat", "owl"}
+var ftDocs = []string{"red fox", "blue fox", "red cat", "grey owl", "blue cat owl", "fox fox red"}
 
 func genRow(r *lib.RNG, pk int64) rowT {
 	row := rowT{PK: pk, A: ip(int64(r.Intn(3)))}
@@ -478,6 +500,61 @@ func gen(r *lib.RNG) caseT {
 			tuples[m-1] = b.sqlTuple()
 		}
 		st.SQL = "INSERT INTO t VALUES " + strings.Join(tuples, ", ")
+		if r.Chance(1, 3) {
+			st.Kind = "replace" // fresh keys: same row edits, the failure is the foreign key, not a duplicate
+			st.SQL = "REPLACE INTO t VALUES " + strings.Join(tuples, ", ")
+		}
+		return cs
+	}
+	if r.Chance(1, 8) {
+		// FULLTEXT index: every row edit also edits the hidden full-text tables, which must be restored as well
+		cs.FT = true
+		for i := range cs.Init {
+			cs.Init[i].B = nil
+			if r.Chance(3, 4) {
+				cs.Init[i].B = sp(lib.Pick(r, ftDocs))
+			}
+		}
+		if r.Bool() {
+			st.Kind = "insert"
+			m := r.Range(2, 3)
+			tuples := make([]string, m)
+			for i := 0; i < m; i++ {
+				row := genRow(r, int64(20+2*i))
+				row.B = sp(lib.Pick(r, ftDocs))
+				st.Rows = append(st.Rows, row)
+				st.WPK = append(st.WPK, row.PK)
+				tuples[i] = row.sqlTuple()
+			}
+			if r.Chance(3, 4) {
+				st.Bad = r.Range(2, m)
+				b := st.Rows[st.Bad-1]
+				switch st.How = lib.Pick(r, []string{"dup-pk", "check", "not-null"}); st.How {
+				case "dup-pk":
+					b.PK = lib.Pick(r, cs.Init).PK
+				case "check":
+					b.C = ip(int64(100 + r.Intn(50)))
+				default:
+					b.A = nil
+				}
+				tuples[st.Bad-1] = b.sqlTuple()
+			}
+			st.SQL = "INSERT INTO t VALUES " + strings.Join(tuples, ", ")
+		} else {
+			st.Kind = "update"
+			st.Where = lib.Pick(r, []string{"a >= 0", "pk >= 2", "a < 2"})
+			switch r.Intn(4) {
+			case 0:
+				st.Set, st.Val = "b", "'grey owl fox'"
+			case 1:
+				st.Set, st.Val = "pk", fmt.Sprint(50+r.Intn(5)) // duplicate key at the second changed row
+			case 2:
+				st.Set, st.Val = "c", fmt.Sprint(100+r.Intn(20))
+			default:
+				st.Set, st.Val = "b", "NULL"
+			}
+			st.SQL = fmt.Sprintf("UPDATE t SET %s = %s WHERE %s", st.Set, st.Val, st.Where)
+		}
 		return cs
 	}
 	switch k := r.Intn(10); {
@@ -576,6 +653,19 @@ func gen(r *lib.RNG) caseT {
 			st.Rows = append(st.Rows, row)
 			tuples[i] = row.sqlTuple()
 		}
+		if m > 1 && r.Bool() {
+			// a NON-duplicate error after the first edit call: CHECK or NOT NULL on a later row
+			st.Bad = r.Range(2, m)
+			b := st.Rows[st.Bad-1]
+			if r.Bool() {
+				st.How = "check"
+				b.C = ip(int64(100 + r.Intn(50)))
+			} else {
+				st.How = "not-null"
+				b.A = nil
+			}
+			tuples[st.Bad-1] = b.sqlTuple()
+		}
 		st.SQL = "REPLACE INTO t VALUES " + strings.Join(tuples, ", ")
 	}
 	return cs
@@ -585,16 +675,16 @@ func gen(r *lib.RNG) caseT {
 
 func runOne(c *lib.Ctx, cs caseT) (calls int64, failed bool) {
 	w := build(cs)
-	before := w.snap()
+	before := w.snap(cs.FT)
 	memory.VerifResetFault(int64(cs.K))
 	res := w.s.Query(cs.Stmt.SQL)
 	calls = memory.VerifEditCalls()
 	memory.VerifResetFault(0)
-	after := w.snap()
+	after := w.snap(cs.FT)
 	failed = res.Err != nil
 
 	es := expected(before.rows, cs.Stmt)
-	natural, goodCalls := violates(before.rows, es, cs.SelfRef)
+	natural, goodCalls := violates(before.rows, es, cs.SelfRef, cs.FT)
 	if cs.Stmt.Bad > 0 {
 		natural = true
 		if goodCalls > cs.Stmt.Bad-1 {
@@ -641,6 +731,9 @@ func runOne(c *lib.Ctx, cs caseT) (calls int64, failed bool) {
 	if cs.SelfRef {
 		kind += "+selfref-fk"
 	}
+	if cs.FT {
+		kind += "+fulltext"
+	}
 	switch {
 	case cs.K > 0:
 		c.Count(fmt.Sprintf("%s/injected_at_call_%d", kind, min(cs.K, 6)))
@@ -672,6 +765,16 @@ func runOne(c *lib.Ctx, cs caseT) (calls int64, failed bool) {
 		case !eqS(before.reads, after.reads):
 			c.PredFail(id, "failed-"+cs.Stmt.Kind+"-changes-index-reads", fmt.Sprintf("%q failed (%v, fault at %d) but index-driven reads changed: %v -> %v", cs.Stmt.SQL, res.Err, cs.K, before.reads, after.reads), cs)
 		}
+		if cs.FT && tOK {
+			// a valid statement afterwards must leave the same full-text state as on a table that never saw the failure
+			follow := "INSERT INTO t VALUES (90, 1, 'red owl', 1), (91, 2, 'grey fox cat', 2)"
+			w2 := build(cs)
+			r1, r2 := w.s.Query(follow), w2.s.Query(follow)
+			s1, s2 := w.snap(true), w2.snap(true)
+			if (r1.Err == nil) != (r2.Err == nil) || !eqS(s1.reads, s2.reads) || !eqS(texts(s1.rows), texts(s2.rows)) {
+				c.PredFail(id, "fulltext-state-differs-after-failed-statement-and-reinsert", fmt.Sprintf("%q failed (%v, fault at %d); a following valid insert gives %v %v, on a fresh table %v %v", cs.Stmt.SQL, res.Err, cs.K, r1.Err, s1.reads, r2.Err, s2.reads), cs)
+			}
+		}
 		if !eqS(before.audit, after.audit) {
 			sig := "failed-statement-changes-other-table"
 			if cs.Trigger && tOK && cs.Stmt.Kind == "insert" {
@@ -693,7 +796,7 @@ func runOne(c *lib.Ctx, cs caseT) (calls int64, failed bool) {
 func runAll(c *lib.Ctx, cs caseT) {
 	cs.K = 0
 	calls, _ := runOne(c, cs)
-	for k := int64(1); k <= calls; k++ {
+	for k := int64(1); k <= calls && k <= 40; k++ {
 		if cs.Trigger && k%2 == 1 {
 			continue // the trigger's own insert into audit: not modelled
 		}
@@ -732,6 +835,15 @@ func main() {
 			{Init: base, Stmt: stmtT{Kind: "insert", SQL: "INSERT INTO t VALUES (20, 1, 'x', 1), (21, 1, 'a', 2)",
 				Rows: []rowT{{PK: 20, A: ip(1), B: sp("x"), C: ip(1)}, {PK: 21, A: ip(1), B: sp("y"), C: ip(2)}}, Bad: 2, How: "dup-unique"}},
 			{Init: base, Stmt: stmtT{Kind: "update", SQL: "UPDATE t SET pk = 50 WHERE a >= 0", Set: "pk", Val: "50", Where: "a >= 0"}},
+			// multi-row REPLACE failing with a non-duplicate error after the first edit call
+			{Init: base, Stmt: stmtT{Kind: "replace", SQL: "REPLACE INTO t VALUES (1, 2, NULL, 8), (2, 0, NULL, 150)",
+				Rows: []rowT{{PK: 1, A: ip(2), C: ip(8)}, {PK: 2, A: ip(0), C: ip(9)}}, Bad: 2, How: "check"}},
+			// FULLTEXT: failure after one row, and an update failing at its second row
+			{Init: []rowT{{PK: 1, A: ip(1), B: sp("red fox"), C: ip(1)}, {PK: 2, A: ip(1), B: sp("blue fox"), C: ip(2)}, {PK: 3, A: ip(2), B: sp("red cat"), C: ip(3)}}, FT: true,
+				Stmt: stmtT{Kind: "insert", SQL: "INSERT INTO t VALUES (20, 1, 'grey owl', 1), (1, 1, 'fox fox red', 2)",
+					Rows: []rowT{{PK: 20, A: ip(1), B: sp("grey owl"), C: ip(1)}, {PK: 22, A: ip(1), B: sp("fox fox red"), C: ip(2)}}, WPK: []int64{20, 1}, Bad: 2, How: "dup-pk"}},
+			{Init: []rowT{{PK: 1, A: ip(1), B: sp("red fox"), C: ip(1)}, {PK: 2, A: ip(1), B: sp("blue fox"), C: ip(2)}, {PK: 3, A: ip(2), B: sp("red cat"), C: ip(3)}}, FT: true,
+				Stmt: stmtT{Kind: "update", SQL: "UPDATE t SET pk = 50 WHERE a >= 0", Set: "pk", Val: "50", Where: "a >= 0"}},
 			{Init: base, Stmt: stmtT{Kind: "update", SQL: "UPDATE t SET c = 9 WHERE a >= 0", Set: "c", Val: "9", Where: "a >= 0"}},
 			{Init: base, Stmt: stmtT{Kind: "delete", SQL: "DELETE FROM t WHERE a >= 0", Where: "a >= 0"}},
 			{Init: base, Stmt: stmtT{Kind: "replace", SQL: "REPLACE INTO t VALUES (1, 2, NULL, 8), (30, 0, NULL, 9)",
